@@ -46,6 +46,13 @@ new = open(t).read()
 os.utime(t, (1000, 1000))
 if recompiler.make_c_source(ffi, "_m", "/*p*/", t) is not False or os.stat(t).st_mtime != 1000:
     bad.append("regenerating identical content touched the file or reported 'updated'")
+for label, stale in (("new text + appended tail", new + "/* stale tail */\n"), ("new text + one newline", new + "\n"),
+                     ("new text minus last char", new[:-1]), ("one char changed", new[:-5] + "#" + new[-4:])):
+    open(t, "w").write(stale)
+    r = recompiler.make_c_source(ffi, "_m", "/*p*/", t)
+    if r is not True or open(t).read() != new:
+        bad.append("regenerating over a stale file (%s): updated=%r, target %s the new content"
+                   % (label, r, "holds" if open(t).read() == new else "does NOT hold"))
 open(t, "w").write("OLD CONTENT")
 seen = []
 real_open, real_rename = open, os.rename
